@@ -1,5 +1,6 @@
 import Typegen.RunLemmas
 import Typegen.Generated.Tables
+import Typegen.Theorems.C08
 /-! # C16 — only the tool's own files in the output directory are ever written or removed
 
 In the run model every filesystem operation is an `R.Op` whose target is a *name inside the configured
@@ -73,6 +74,26 @@ theorem C16_plan_targets {Src Cfg Key Content : Type} (S : R.Sys Src Cfg Key Con
   · exact .inl h
   · exact .inr (.inr ⟨p, hp, rfl⟩)
   · exact .inr (.inl h)
+
+/-- the modelled tool (analysis model + generator model behind the run model): every write of every plan, for every
+    project and configuration, targets one of four reserved names -/
+theorem C16_concrete_writes_reserved (src : Pj.Project) (cfg : Gn.Config)
+    (op : R.Op (KS.View × Gn.Config) Str) (h : op ∈ R.plan TG.C08.concreteSys src cfg) :
+    op = .removeCache ∨ op = .writeCache (TG.C08.concreteSys.key src cfg) ∨
+    ∃ n c, op = .write n c ∧ n ∈ ["types.ts", "commands.ts", "events.ts", "index.ts"] ∧ specReserved n = true := by
+  rcases C16_plan_targets _ src cfg op h with h | h | ⟨p, hp, rfl⟩
+  · exact .inl h
+  · exact .inr (.inl h)
+  · refine .inr (.inr ⟨p.1, p.2, rfl, ?_⟩)
+    simp only [TG.C08.concreteSys] at hp
+    generalize (Gn.generate cfg (An.analyze src)).events = ev at hp
+    cases ev with
+    | none =>
+      simp only [List.cons_append, List.nil_append, List.append_nil, List.mem_cons, List.not_mem_nil, or_false] at hp
+      rcases hp with rfl | rfl | rfl <;> (constructor <;> (simp only []; decide +kernel))
+    | some e =>
+      simp only [List.cons_append, List.nil_append, List.mem_cons, List.not_mem_nil, or_false] at hp
+      rcases hp with rfl | rfl | rfl | rfl <;> (constructor <;> (simp only []; decide +kernel))
 
 /-! non-vacuity / near misses -/
 example : specReserved "notes.ts" = false ∧ specReserved "types.tsx" = false ∧ specReserved ".write_test" = false ∧
